@@ -15,7 +15,8 @@ open Vio
 let mode_of_char = function 'r' | 'h' -> R | 'w' -> W | _ -> RW
 
 let parse_items owner body =
-  let fields = List.filter (fun t -> t <> "") (List.map String.trim (String.split_on_char ';' body)) in
+  (* "~" only delays the inserting thread of the harness (late flush): every timing is an event list of the model *)
+  let fields = List.filter (fun t -> t <> "" && t <> "~") (List.map String.trim (String.split_on_char ';' body)) in
   List.map (fun t ->
     if t = "!" then OWait
     else if t = "F*" then OFlushAll
